@@ -766,3 +766,152 @@ func (c *Ctx) returnsEnvField(info *types.Info, call *ast.CallExpr) string {
 	}
 	return tgt
 }
+
+// ---------------------------------------------------------------------------
+// PR1: the printer does not let two tokens make a third.
+
+func rulePR1() Rule {
+	return Rule{ID: "PR1", Kind: "must", Floor: 3,
+		Doc: "where the printer writes an operator and then text it does not control, the two must not make a longer operator of the shell's table: (a) `<<` followed by a delimiter that begins with a hyphen is `<<-` - redir() writes a blank between them under a test that mentions both; (b) `(` followed by a command whose text begins with `(` is `((`, the arithmetic command, and `$(` followed by it is `$((`, the arithmetic expansion - on the paths of subshell() and cmdSubst() that print the only command on the same line a blank is written under a test made by a helper that looks for a leading subshell or arithmetic command. Otherwise printing turns one construct into another (`( (a) )` into `((a))`)",
+		Run: func(c *Ctx, rr *core.RuleResult) {
+			space := c.fn("printer.(*printer).space")
+			command := c.fn("printer.(*printer).command")
+			if space == nil || command == nil {
+				rr.Unkp(c.P, "printer|space/command", 0, "the printer's space() or command() was not found")
+				return
+			}
+			callsFn := func(info *types.Info, n ast.Node, g *core.Func) bool {
+				found := false
+				ast.Inspect(n, func(x ast.Node) bool {
+					if call, ok := x.(*ast.CallExpr); ok {
+						if fo := core.StaticCallee(info, call); fo != nil && c.P.FuncOf(fo) == g {
+							found = true
+						}
+					}
+					return !found
+				})
+				return found
+			}
+			// (a)
+			if f := c.mustFn(rr, "printer.(*printer).redir"); f != nil {
+				info := f.Info()
+				ok := false
+				f.OwnNodes(func(n ast.Node) bool {
+					call, isCall := n.(*ast.CallExpr)
+					if !isCall {
+						return true
+					}
+					if fo := core.StaticCallee(info, call); fo == nil || c.P.FuncOf(fo) != space {
+						return true
+					}
+					op, hyphen := false, false
+					for _, gd := range guardsOf(c.P, call, nil) {
+						if !gd.pos {
+							continue
+						}
+						ast.Inspect(gd.cond, func(x ast.Node) bool {
+							if e, isE := x.(ast.Expr); isE {
+								if s, isC := constStr(info, e); isC && s == "<<" {
+									op = true
+								}
+								if s, isC := constStr(info, e); isC && s == "-" {
+									hyphen = true
+								}
+								if v, isC := constInt(info, e); isC && v == '-' {
+									if _, isLit := e.(*ast.BasicLit); isLit {
+										hyphen = true
+									}
+								}
+							}
+							return true
+						})
+					}
+					if op && hyphen {
+						ok = true
+					}
+					return true
+				})
+				key := f.Name + "|<< and a hyphen"
+				if ok {
+					rr.OK(f, key, f.Pos(), "separated", "a blank is written when the operator is << and the delimiter begins with a hyphen")
+				} else {
+					rr.Bad(f, key, f.Pos(), "the operator and the word are written next to each other whatever they are: `cat << -E` is printed as `cat <<-E`, a different operator (with the styles that put no blank behind a redirection operator)")
+				}
+			}
+			// (b)
+			leading := func(h *core.Func) bool {
+				if h == nil || h.Body == nil {
+					return false
+				}
+				sub, arith := false, false
+				h.OwnNodes(func(n ast.Node) bool {
+					if e, ok := n.(ast.Expr); ok {
+						switch exprStr(e) {
+						case "*ast.Subshell":
+							sub = true
+						case "*ast.ArithEval":
+							arith = true
+						}
+					}
+					return true
+				})
+				return sub && arith
+			}
+			for _, name := range []string{"printer.(*printer).subshell", "printer.(*printer).cmdSubst"} {
+				f := c.mustFn(rr, name)
+				if f == nil {
+					continue
+				}
+				info := f.Info()
+				n := 0
+				f.OwnNodes(func(x ast.Node) bool {
+					call, isCall := x.(*ast.CallExpr)
+					if !isCall {
+						return true
+					}
+					if fo := core.StaticCallee(info, call); fo == nil || c.P.FuncOf(fo) != command {
+						return true
+					}
+					n++
+					key := fmt.Sprintf("%s|the only command on the same line #%d", f.Name, n)
+					// the statement before the call, in the same block, is `if <helper(…)> { space() }`
+					ok := false
+					var list []ast.Stmt
+					var self ast.Node = call
+					for p := c.P.Parent(call); p != nil; p = c.P.Parent(p) {
+						if b, isB := p.(*ast.BlockStmt); isB {
+							list = b.List
+							break
+						}
+						self = p
+					}
+					for i, st := range list {
+						if ast.Node(st) != self || i == 0 {
+							continue
+						}
+						ifs, isIf := list[i-1].(*ast.IfStmt)
+						if !isIf || !callsFn(info, ifs.Body, space) {
+							continue
+						}
+						ast.Inspect(ifs.Cond, func(y ast.Node) bool {
+							if cl, isCl := y.(*ast.CallExpr); isCl {
+								if fo := core.StaticCallee(info, cl); fo != nil && leading(c.P.FuncOf(fo)) {
+									ok = true
+								}
+							}
+							return true
+						})
+					}
+					if ok {
+						rr.OK(f, key, call.Pos(), "separated", "a blank is written when the command's text begins with a parenthesis")
+					} else {
+						rr.Bad(f, key, call.Pos(), "the command is printed directly behind the opening parenthesis whatever it begins with: a subshell or an arithmetic command there makes `((` (or `$((`), which is read back as an arithmetic command (expansion)")
+					}
+					return true
+				})
+				if n == 0 {
+					rr.Unk(f, f.Name+"|the only command on the same line", f.Pos(), "no call of command() in this function")
+				}
+			}
+		}}
+}
